@@ -147,6 +147,61 @@ def oracle_weights(ctx, fr, cj):
                     cj, {"kind": "weights"})
 
 
+def oracle_get_timetrace(ctx, fr, cj):
+    """`Frame.get_timetrace(i, j)` is the timetrace recorded for exactly that ordered pair; a pair that was not recorded
+    is refused (never another pair's data, never the mirror's)."""
+    n = fr.probe.numelements
+    if not fr.numtimetraces or n == 0:
+        return
+    pairs = list(zip(map(int, fr.tx), map(int, fr.rx)))
+    rng = np.random.default_rng(len(pairs) * 7919 + n)
+    asked = [pairs[int(k)] for k in rng.integers(0, len(pairs), size=min(4, len(pairs)))]
+    asked += [(b, a) for a, b in asked[:2]] + [(int(rng.integers(0, n)), int(rng.integers(0, n))) for _ in range(2)]
+    for (i, j) in asked:
+        try:
+            got = fr.get_timetrace(i, j)
+        except IndexError:
+            got = None
+        except Exception as e:
+            ctx.violate(f"get_timetrace({i},{j}) raised {type(e).__name__}", cj, {"kind": "get_timetrace"})
+            continue
+        if (i, j) in pairs:
+            want = fr.timetraces[pairs.index((i, j))]
+            if got is None or not np.array_equal(got, want):
+                ctx.violate(f"get_timetrace({i},{j}) does not return the timetrace recorded for that pair (tx={pairs})", cj, {"kind": "get_timetrace"})
+        elif got is not None:
+            ctx.violate(f"get_timetrace({i},{j}) returned data although the pair was not recorded (tx/rx={pairs})", cj, {"kind": "get_timetrace"})
+    ctx.count("get_timetrace", len(asked))
+
+
+def check_duplicates(ctx):
+    """`Frame.__init__` refuses a pair recorded twice (the premise 'distinct pairs' of every other clause is enforced)"""
+    import arim
+
+    rng = ctx.rng
+    for _ in range(20 * ctx.scale):
+        numel = int(rng.integers(1, 7))
+        k = int(rng.integers(2, numel * numel + 2))
+        ps = [(int(rng.integers(0, numel)), int(rng.integers(0, numel))) for _ in range(k)]
+        dup = len(set(ps)) < len(ps)
+        fr3 = [(a, b, d + 1) for d, (a, b) in enumerate(ps)]
+        try:
+            build(numel, fr3)
+            raised = False
+        except ValueError:
+            raised = True
+        ctx.count("dup:" + ("refused" if raised else "accepted"))
+        if dup != raised:
+            ctx.violate(f"Frame.__init__ {'accepted a frame with a repeated pair' if dup else 'refused a frame of distinct pairs'}: {ps}",
+                        {"numel": numel, "pairs": ps}, {"kind": "duplicates"})
+        # mirrors are not duplicates
+    ps = [(0, 1), (1, 0)]
+    try:
+        build(2, [(0, 1, 1), (1, 0, 2)])
+    except Exception as e:
+        ctx.violate(f"a pair and its mirror were refused as duplicates: {e}", {"pairs": ps}, {"kind": "duplicates"})
+
+
 def oracle_op(ctx, before, after, op, cj):
     """the property statement for one operation, on the implementation's objects"""
     b_pairs = list(zip(map(int, before.tx), map(int, before.rx)))
@@ -191,6 +246,7 @@ def run_history(ctx, numel, frame, ops, answer=None, rng=None):
     s, ok = state_of(fr)
     states.append(s)
     oracle_weights(ctx, fr, cj)
+    oracle_get_timetrace(ctx, fr, cj)
     nops = int(rng.integers(1, 6)) if ops is None else len(ops)
     done = []
     for k in range(nops):
@@ -223,6 +279,7 @@ def run_history(ctx, numel, frame, ops, answer=None, rng=None):
             ctx.violate("timetrace samples got mixed between timetraces", cj, {"kind": "payload"})
         oracle_op(ctx, before, fr, op, cj)
         oracle_weights(ctx, fr, cj)
+        oracle_get_timetrace(ctx, fr, cj)
         if fr.numtimetraces == 0:
             break
     return done, states, cj
@@ -276,6 +333,7 @@ def run(ctx):
                 "expand / identity filter / subframe(index) / subframe_from_probe_elements(index, make_subprobe) with slices (negative, None, steps), "
                 "boolean masks, integer lists with negative entries (3% malformed); distinct = distinct request line; non-trivial = at least 2 timetraces and one op succeeded")
     check_enums(ctx)
+    check_duplicates(ctx)
     n = 700 * ctx.scale
     runs = []
     for _ in range(n):
